@@ -12,7 +12,7 @@ def S(pid, base, fields, default=None, debug=False, name=None):
     s = Struct(name or f"S{pid}", base, fields, default=default, debug=debug)
     assert s.valid(), f"corpus declaration {pid} violates the C09 rule"
     # lists naming a bit twice are outside the guarantees of C04: only the dedicated kselfov* layouts may have them
-    assert pid.startswith("kselfov") or pid.startswith("koverlaparr") or not any(f.self_overlap() for f in fields), f"{pid}: self-overlapping field"
+    assert pid.startswith(("kselfov", "koverlaparr", "kroselfov")) or not any(f.self_overlap() for f in fields), f"{pid}: self-overlapping field"
     return s
 
 
@@ -156,6 +156,13 @@ def programs_arrays(tier):
         F("acc", T_u(4), (24, 4), style="access_first"),                         # #[bits(rw, 24..=27)]
         F("nc", T_u(2), [(28, 1), (30, 1)], array=(2, 1), style="access_first_colon"),   # #[bits(rw, [28, 30], stride: 1)]
     ])], props=("C03", "C04", "C02", "C01", "C16", "C13", "C09")))
+    # zero-padded decimal literals are ordinary decimal numbers (010 is ten)
+    progs.append(Program("litsty", structs=[S("litsty", 128, [
+        F("x", T_u(8), (10, 8), style="zpad"),                     # #[bits(010..=017, rw)]
+        F("f", T_bool(), (12 + 8, 1), style="zpad"),                # #[bit(020, rw)]
+        F("y", T_u(8), (60, 8), style="zpad"),                     # #[bits(060..=067, rw)]
+        F("z", T_u(4), (100, 4), array=(3, 8), style="zpad"),       # #[bits(100..=103, rw, stride = 008)]
+    ])], props=("C01", "C02", "C03", "C09", "C16")))
     if tier == "thorough":
         progs.append(Program("ar127", structs=[S("ar127", 127, [
             F("x", T_u(63), (1, 63), array=(2, None)),
@@ -253,6 +260,11 @@ def programs_signed(tier):
         F("a", T_i(8), (16, 8)),
         F("b", T_i(16), (0, 16)),
     ])], props=("C05", "C11", "C16", "C13")))
+    progs.append(Program("sgacc", structs=[S("sgacc", 32, [
+        F("delta", T_i(8), (0, 8), access="w"),               # write-only signed field (no getter is generated)
+        F("channel", T_u(8), (8, 8)),
+        F("ro", T_i(16), (16, 16), access="r"),
+    ], default=Default(0))], props=("C05", "C16", "C13", "C17")))
     progs.append(Program("sg12", structs=[S("sg12", 12, [
         F("offset", T_i(8), [(0, 4), (8, 4)]),            # signed, split, last range ends at the top EXPOSED bit of u12 (storage u16)
     ])], props=("C05", "C04", "C11", "C16", "C12")))
@@ -372,6 +384,18 @@ def programs_enum_fields(tier):
         F("ops", T_enum(e8), (8, 8), array=(3, None)),      # native-width enum array NOT starting at bit 0
         F("ch", T_enum(e8), (36, 8), array=(2, 12)),
     ])], props=("C08", "C03", "C16")))
+    e2n = mk_enum("Ef2n", 2, None, values=[3, 0, 1])
+    e3n = mk_enum("Ef3n", 3, "false", values=[1, 7, 4, 2])
+    progs.append(Program("ef32n", enums=[e2n, e3n], structs=[S("ef32n", 32, [
+        F("mode", T_enum(e2n), [(3, 1), (6, 1)], array=(4, 8)),              # bits 3,6 / 11,14 / ...: first range not at bit 0
+        F("prio", T_enum(e3n), [(1, 2), (5, 1)], array=(2, 16)),             # 1..=2,5 / 17..=18,21
+        F("gap", T_enum(e2n), (24, 2), array=(2, 4)),                        # stride > width: gap bits 26,27 hold `keep`
+        F("keep", T_u(2), (26, 2)),
+    ])], props=("C08", "C03", "C04", "C16", "C12")))
+    e8f = mk_enum("Ef8f", 8, "false", values=[0, 0xFF, 0x80, 0x7F])
+    in16 = Struct("In16", 16, [F("lo", T_u(8), (0, 8)), F("hi", T_u(8), (8, 8))])
+    progs.append(Program("effull8", enums=[e8f], structs=[S("effull8", 8, [F("op", T_enum(e8f), (0, 8))])], props=("C08", "C16", "C13")))
+    progs.append(Program("effull16", structs=[in16, S("effull16", 16, [F("inner", FT("nested", 16, in16), (0, 16))])], props=("C08", "C16", "C13")))
     # nested bitfields
     in8 = Struct("In8", 8, [F("lo", T_u(4), (0, 4)), F("hi", T_u(4), (4, 4))])
     in4 = Struct("In4", 4, [F("x", T_u(3), (0, 3)), F("y", T_bool(), (3, 1))])
@@ -500,6 +524,13 @@ def programs_c14(tier):
     add("kselfov", 16, [F("a", T_u(8), [(0, 4), (2, 4)])], Default(0), extra=("C16",))             # self-overlapping range list -> none
     add("kselfov2", 32, [F("a", T_u(12), [(8, 8), (12, 4)]), F("b", T_u(8), (24, 8))], Default(0), extra=("C16",))
     add("kselfov3", 16, [F("f", T_u(12), [(8, 8), (12, 4)])], Default(0), extra=("C16",))           # overlap touching the top bit
+    add("kselfov4", 8, [F("a", T_u(16), [(0, 8), (0, 8)], access="r")], Default(0), extra=("C16",))   # a listed range as wide as the storage (read-only: the writable form dies in a const-eval overflow error)
+    add("koverlaparr3", 32, [F("p", T_u(4), [(0, 2), (8, 2)], array=(3, 4))], Default(0))           # elements 0 and 2 share bits 8..=9 (neighbours are disjoint) -> none
+    add("ktop127ro", 128, [F("lo", T_u(64), (0, 64)), F("hi", T_u(63), (64, 63)), F("busy", T_bool(), (127, 1), access="r")])   # top bit read-only, no default -> none
+    add("ktop127un", 128, [F("lo", T_u(64), (0, 64)), F("hi", T_u(63), (64, 63))])                  # top bit undeclared, no default -> none
+    add("kroselfov", 32, [F("a", T_u(8), (0, 8)), F("win", T_u(8), [(16, 4), (18, 4)], access="r")], Default(0x00AB0000), extra=("C13", "C17"))   # read-only self-overlapping view: builder still due
+    add("kroalias", 16, [F("divider", T_u(4), (8, 4)), F("fast", T_bool(), (11, 1), access="r"), F("lowv", T_u(8), (0, 8), access="r")], Default(0x0800), extra=("C13", "C17"))   # read-only alias AFTER the writable field
+    add("kroalias2", 16, [F("fast", T_bool(), (11, 1), access="r"), F("divider", T_u(4), (8, 4))], Default(0), extra=("C13", "C17"))
     add("krogap", 8, [F("a", T_u(4), (0, 4)), F("r", T_u(4), (4, 4), access="r")])                 # read-only bits uncovered, no default -> none
     add("krogapdef", 8, [F("a", T_u(4), (0, 4)), F("r", T_u(4), (4, 4), access="r")], Default(0xA0), extra=("C13",))
     add("karb", 12, [F("a", T_u(4), (0, 4)), F("b", T_u(8), (4, 8))], extra=("C13", "C11"))       # arbitrary base complete -> builder
